@@ -44,7 +44,8 @@ def ops_strategy():
     # the tail of a stream is declared lost (only the probe that follows it is acknowledged) and the application writes more before the next
     # transmit: one STREAM frame then carries retransmitted and new bytes
     tail = st.tuples(st.just("tail_loss_then_write"), st.sampled_from([0, 0, 1, 2]), st.sampled_from(["lim-1", "lim", "lim+1", "1", "5000"]), st.booleans())
-    return st.lists(st.one_of(write, write, write, burst, burst, tail, tail, reset, maxd, maxsd, maxsd, maxs, maxs, stop, simple, simple, simple), min_size=4, max_size=18)
+    peer_open = st.tuples(st.just("peer_open"), st.integers(0, 2))
+    return st.lists(st.one_of(write, write, write, burst, burst, tail, tail, reset, maxd, maxsd, maxsd, maxs, maxs, stop, simple, simple, simple, peer_open), min_size=4, max_size=18)
 
 
 def run_history(ctx, case):
@@ -284,6 +285,13 @@ def run_history(ctx, case):
                     if sid not in reset_written:
                         sut_call("reset_stream", tk.sut.reset_stream, sid, 9)
                         reset_written.add(sid)
+            elif kind == "peer_open":
+                # the peer opens one of its own bidirectional streams: what the SUT sends on it is bounded by the peer's bidi_local limit
+                sid = (0 if not sut_is_client else 1) + 4 * op[1]
+                sut_call("receive_datagram", tk.send_frames, [{"name": "stream", "stream_id": sid, "offset": 0, "data": b"p", "fin": False}])
+                if sid not in streams and not dead[0]:
+                    streams.append(sid)
+                    cls.add("peer-initiated-stream")
             elif kind == "max_data":
                 v = newval(L_conn, op[1])
                 sut_call("receive_datagram", tk.send_frames, [{"name": "max_data", "maximum": v}])
@@ -408,7 +416,7 @@ def histories(ctx, examples, shard):
 
     lim = st.sampled_from([0, 1, 100, 1199, 1200, 1201, 1201, 16384, 16384, 16384])
     strat = st.fixed_dictionaries(
-        {"kind": st.just("c06"), "role": st.sampled_from(["client", "server"]), "max_data": lim, "max_stream_data": lim, "streams_bidi": st.sampled_from([0, 1, 2, 5, 5]), "streams_uni": st.sampled_from([0, 1, 2, 5, 5]), "remembered": st.sampled_from([None, None, None, "declined", "accepted"]), "ops": ops_strategy()}
+        {"kind": st.just("c06"), "role": st.sampled_from(["client", "server"]), "max_data": lim, "max_stream_data": lim, "streams_bidi": st.sampled_from([0, 1, 2, 5, 5]), "streams_uni": st.sampled_from([0, 1, 2, 5, 5]), "remembered": st.sampled_from([None, None, None, "declined", "accepted"]), "asym": st.one_of(st.none(), st.tuples(lim, lim, lim)), "ops": ops_strategy()}
     )
 
     def body(ctx, case):
